@@ -32,7 +32,10 @@ class LockStep:
         self.mods = dict(self.model.named_modules())
         self.tmods = dict(self.twin.named_modules())
         self.rec = kmodel.Recorder(self.twin, self.names)
-        self.scale = case.get('loss_scale')
+        # loss scale: None, a constant, or {'table': [...]} = dynamic loss scaling (value of training iteration i is table[i % len])
+        self.scale_json = case.get('loss_scale')
+        self.scale = self._scale_at(0)
+        self.iter = 0
         self.hp_json = dict(case.get('hp', {}))
         self.kw = dict(
             compute_method=case.get('method', 'eigen'),
@@ -47,7 +50,7 @@ class LockStep:
             if k in self.hp_json:
                 self.kw[k] = hp_callable(self.hp_json[k])
         if self.scale is not None:
-            self.kw['grad_scaler'] = (lambda s=self.scale: s)
+            self.kw['grad_scaler'] = (lambda: self.scale)
         with warnings.catch_warnings():
             warnings.simplefilter('ignore')
             self.pre = KFACPreconditioner(self.model, **self.kw)
@@ -57,6 +60,8 @@ class LockStep:
                 (('factor_update_steps', 1), ('inv_update_steps', 1), ('damping', 0.001), ('factor_decay', 0.95), ('kl_clip', 0.001), ('lr', 0.1))},
             accumulation=case.get('accum', 1), in_hook=case.get('in_hook', True),
             factor_dtype=self.fd, grad_scale=self.scale)
+        self.live = [v for v in list(self.kw.values()) + list(self.ref.hp.values()) if hasattr(v, 'set_iter')]
+        self.snap = None
         self.sched = None
         self.sched_json = case.get('scheduler')
         if self.sched_json:
@@ -69,6 +74,12 @@ class LockStep:
         self.eps_factor = refkfac.EPS[self.fd or self.pd]
         self.stats = {'worst_grad': 0.0, 'worst_factor': 0.0, 'max_tol': 0.0, 'informative_steps': 0}
         self.events = []      # (step index, factor_update, refresh) for non-triviality rules
+
+    def _scale_at(self, i):
+        v = self.scale_json
+        if isinstance(v, dict):
+            return v['table'][i % len(v['table'])]
+        return v
 
     def _mk_sched(self):
         from kfac.scheduler import LambdaParamScheduler
@@ -93,6 +104,11 @@ class LockStep:
         c = self.case
         accum = c.get('accum', 1)
         sizes = sizes or [c.get('N', 2)] * accum
+        self.scale = self._scale_at(self.iter)
+        self.ref.grad_scale = self.scale
+        for v in self.live:
+            v.set_iter(self.iter)
+        self.iter += 1
         self.model.train()
         self.twin.train()
         for m in (self.model, self.twin):
@@ -258,6 +274,41 @@ class LockStep:
         for k in self.sched_json:
             if getattr(self.pre, k) != self.ref.hp[k]:
                 return ('scheduler', f'after scheduler.step() {k} = {getattr(self.pre, k)!r}, expected {self.ref.hp[k]!r}')
+        return None
+
+    def snapshot(self):
+        """Keep a state dict alive in memory (not pickled, not copied) together with the weights and the reference's state."""
+        if self.ref.steps == 0 or any(L.A is None or L.G is None for L in self.ref.layers.values()):
+            return None      # a state without factors does not reset a live preconditioner's factors when loaded (not a roll-back)
+        self.snap = {'sd': self.pre.state_dict(), 'ref': self.ref.save_state(), 'at': len(self.events),
+                     'params': [p.detach().clone() for p in self.model.parameters()],
+                     'buffers': [b.detach().clone() for b in self.model.buffers()]}
+        return None
+
+    def rollback(self):
+        """Load the state dict kept by snapshot() into the SAME live preconditioner and put the weights back
+        (keep-best-checkpoint / roll-back pattern).  Second-order data is recomputed from the restored factors."""
+        if self.snap is None:
+            return None
+        try:
+            with warnings.catch_warnings():
+                warnings.simplefilter('ignore')
+                self.pre.load_state_dict(self.snap['sd'], compute_inverses=True)
+        except Exception as e:  # noqa: BLE001
+            return ('load-exception', f'load_state_dict of a state dict kept in memory raised {type(e).__name__}: {e}')
+        with torch.no_grad():
+            for m in (self.model, self.twin):
+                for p, q in zip(m.parameters(), self.snap['params']):
+                    p.copy_(q)
+                for b, q in zip(m.buffers(), self.snap['buffers']):
+                    b.copy_(q)
+        self.ref.load_state(self.snap['ref'])
+        self.ref.refresh_snapshots()
+        if self.pre.steps != self.ref.steps:
+            return ('roundtrip-steps', f'steps after rolling back = {self.pre.steps}, snapshot taken at {self.ref.steps}')
+        for k, v in self.ref.hp.items():
+            if not callable(v) and getattr(self.pre, k) != v:
+                return ('roundtrip-hyperparameter', f'{k} after rolling back = {getattr(self.pre, k)!r}, value when the state was taken {v!r}')
         return None
 
     def checkpoint_roundtrip(self, compute_inverses=True, include_factors=True):
